@@ -226,21 +226,38 @@ func (m *m6) skipGuardedLoop(hdr *ssa.BasicBlock) (string, map[*ssa.BasicBlock]b
 	}
 	k := ""
 	skips := map[*ssa.BasicBlock]bool{}
+	// candidate skip blocks: predecessors of the header, and predecessors of a latch (the post block of a
+	// three-clause loop, which only steps the loop variable and jumps back)
+	var cands []*ssa.BasicBlock
 	for _, pred := range hdr.Preds {
 		if !cl.loop.Blocks[pred] {
 			continue
 		}
+		cands = append(cands, pred)
+		if len(pred.Succs) == 1 {
+			for _, pp := range pred.Preds {
+				if cl.loop.Blocks[pp] && pp != hdr {
+					cands = append(cands, pp)
+				}
+			}
+		}
+	}
+	for _, pred := range cands {
 		ifi, ok := pred.Instrs[len(pred.Instrs)-1].(*ssa.If)
 		if !ok {
 			continue
 		}
 		cmp, ok := ifi.Cond.(*ssa.BinOp)
-		if !ok || cmp.Op != token.EQL || pred.Succs[0] != hdr {
+		if !ok || cmp.Op != token.EQL {
 			continue
 		}
 		z, isZ := core.ConstInt(cmp.Y)
 		x, isLen := core.IsLenOf(cmp.X)
 		if !isZ || z != 0 || !isLen {
+			continue
+		}
+		// the true edge goes straight back: to the header or to its latch
+		if t := pred.Succs[0]; t != hdr && !(len(t.Succs) == 1 && t.Succs[0] == hdr && cl.loop.Blocks[t]) {
 			continue
 		}
 		// x = K[idx]
@@ -258,6 +275,12 @@ func (m *m6) skipGuardedLoop(hdr *ssa.BasicBlock) (string, map[*ssa.BasicBlock]b
 		if kk == nil || m.base(kk) != "DOM" {
 			continue
 		}
+		// the array variable itself and the copy a range statement takes of it are the same numbering
+		if u, isLoad := kk.(*ssa.UnOp); isLoad && u.Op == token.MUL {
+			if al, isAl := u.X.(*ssa.Alloc); isAl {
+				kk = al
+			}
+		}
 		p := core.PathOf(kk)
 		if k != "" && k != p {
 			return "", nil
@@ -271,6 +294,24 @@ func (m *m6) skipGuardedLoop(hdr *ssa.BasicBlock) (string, map[*ssa.BasicBlock]b
 	return k, skips
 }
 
+// backEdgeLeaves: the (source block, value) pairs that feed a header phi, looking through the phi of a latch block.
+func backEdgeLeaves(phi *ssa.Phi) (preds []*ssa.BasicBlock, vals []ssa.Value) {
+	hdr := phi.Block()
+	for i, pred := range hdr.Preds {
+		e := phi.Edges[i]
+		if lp, isPhi := e.(*ssa.Phi); isPhi && lp.Block() == pred && len(pred.Succs) == 1 {
+			for j, pp := range pred.Preds {
+				preds = append(preds, pp)
+				vals = append(vals, lp.Edges[j])
+			}
+			continue
+		}
+		preds = append(preds, pred)
+		vals = append(vals, e)
+	}
+	return
+}
+
 // compactProducer: slice phi in a skip-guarded loop: empty at entry, unchanged on skip edges, append(self, one element) otherwise.
 func (m *m6) compactProducer(phi *ssa.Phi) string {
 	if _, ok := phi.Type().Underlying().(*types.Slice); !ok {
@@ -280,8 +321,9 @@ func (m *m6) compactProducer(phi *ssa.Phi) string {
 	if k == "" {
 		return ""
 	}
-	for i, pred := range phi.Block().Preds {
-		e := phi.Edges[i]
+	lpreds, lvals := backEdgeLeaves(phi)
+	for i, pred := range lpreds {
+		e := lvals[i]
 		switch {
 		case skips[pred]:
 			if e != ssa.Value(phi) {
@@ -325,8 +367,9 @@ func (m *m6) compactCounter(phi *ssa.Phi) string {
 	if k == "" {
 		return ""
 	}
-	for i, pred := range phi.Block().Preds {
-		e := phi.Edges[i]
+	lpreds, lvals := backEdgeLeaves(phi)
+	for i, pred := range lpreds {
+		e := lvals[i]
 		switch {
 		case skips[pred]:
 			if e != ssa.Value(phi) {
